@@ -2,7 +2,6 @@ package props
 
 import (
 	"fmt"
-	"go/token"
 	"go/types"
 	"strings"
 
@@ -57,17 +56,14 @@ func C18length(p *load.Program, run *report.Run) {
 					if !ok {
 						continue
 					}
-					bo, ok := iff.Cond.(*ssa.BinOp)
-					if !ok || bo.X != length {
+					big, small, _, ok := ordCmpSSA(iff.Cond)
+					if !ok {
 						continue
 					}
-					if _, isConst := bo.Y.(*ssa.Const); !isConst {
-						continue
-					}
-					switch bo.Op {
-					case token.GTR, token.GEQ:
+					// length > K (or >=) fails the bound: the false edge is safe; K > length: the true edge is
+					if _, isConst := small.(*ssa.Const); isConst && big == length {
 						safe = append(safe, g.Succs[1])
-					case token.LSS, token.LEQ:
+					} else if _, isConst := big.(*ssa.Const); isConst && small == length {
 						safe = append(safe, g.Succs[0])
 					}
 				}
